@@ -54,7 +54,8 @@ def freeze_value(value: Any) -> Any:
         )
     if isinstance(value, set):
         return frozenset(freeze_value(element) for element in value)
-    if isinstance(value, list):
+    if isinstance(value, (list, tuple)):
+        # Tuples are immutable themselves but may hold mutable values
         return tuple(freeze_value(element) for element in value)
     return value
 
